@@ -132,11 +132,78 @@ def tables(F):
                 c = F.fn(t["f"])
                 if c and c.name not in ("new", "encode"):
                     hs = helper_summary(c, seen + (f.path,))
-                    code += hs["code"]
-                    lines += hs["lines"]
+                    code += hs["code"] or 0
+                    lines += hs["lines"] or 0
                     jump_err = jump_err or hs["jump_error"]
         # straight-line requirement: no loops / branches that change counts
         branches = [b for b in f.reachable if f.blocks[b]["t"]["k"] == "switch"]
+        if branches:
+            # counted path by path (a loop over known bounds, `for _ in 0..4 { lines.push(line) }`, is run): every
+            # returning path must push the same number of bytes and of line entries, else the count is undefined
+            from . import peval
+            try:
+                pe = peval.PEval(F, f, call_hook=peval.range_hook, limit=400)
+                paths = pe.run(0, {}, unroll=True)
+            except peval.Limit:
+                paths = None
+            totals = set()
+            for pth in paths or []:
+                if pth["end"] != "return":
+                    if pth["end"] != "diverge":
+                        totals.add((None, None))
+                    continue
+                pc = pl_ = 0
+                for ev in pth["events"]:
+                    if ev[0] != "call":
+                        continue
+                    t = ev[4]
+                    n = lastseg(t["f"])
+                    if not t["args"]:
+                        continue
+                    d0 = sem.desc_operand(f, t["args"][0])
+                    on_code = sem.desc_mentions_field(d0, "encoded_code")
+                    on_lines = sem.desc_mentions_field(d0, "encoded_lines")
+                    if n == "push" and on_code:
+                        pc += 1
+                    elif n == "push" and on_lines:
+                        pl_ += 1
+                    elif n == "extend_from_slice" and (on_code or on_lines):
+                        l = op_local(t["args"][1])
+                        k = None
+                        seenl = 0
+                        while l is not None and seenl < 6:
+                            seenl += 1
+                            m = re.search(r"\[u8; (\d+)(_usize)?\]", f.locals[l])
+                            if m:
+                                k = int(m.group(1))
+                                break
+                            sd = f.single_def(l)
+                            if sd and sd[0] == "assign":
+                                ps = sem.places_in_rvalue(sd[1])
+                                l = ps[0]["l"] if ps else None
+                            else:
+                                l = None
+                        if k is None:
+                            pc = pl_ = None
+                            break
+                        if on_code:
+                            pc += k
+                        else:
+                            pl_ += k
+                    elif t["f"].startswith(ENC) and t["f"] != f.path and t["f"] not in seen and lastseg(t["f"]) != "jump_error":
+                        c = F.fn(t["f"])
+                        if c and c.name not in ("new", "encode"):
+                            hs = helper_summary(c, seen + (f.path,))
+                            if hs["code"] is None or hs["lines"] is None:
+                                pc = pl_ = None
+                                break
+                            pc += hs["code"]
+                            pl_ += hs["lines"]
+                totals.add((pc, pl_))
+            if paths is not None and len(totals) == 1:
+                code, lines = next(iter(totals))
+            else:
+                code = lines = None
         res = {"code": code, "lines": lines, "jump_error": jump_err, "unknown": unknown, "branches": len(branches)}
         T.helpers[f.path] = res
         return res
@@ -167,8 +234,11 @@ def tables(F):
                         hs = T.helpers[t["f"]]
                         if lastseg(t["f"]) == "jump_error":
                             jerr = True
-                        code += hs["code"]
-                        lines += hs["lines"]
+                        if hs["code"] is None or hs["lines"] is None or code is None:
+                            code = lines = None     # the helper's count differs between its paths
+                        else:
+                            code += hs["code"]
+                            lines += hs["lines"]
                         jerr = jerr or hs["jump_error"]
                         helpers.append(lastseg(t["f"]))
                         for a in t["args"]:
